@@ -6,6 +6,10 @@
 (***************************************************************************)
 EXTENDS TraceBase, F64
 
+\* TRUE: only "does not panic" is judged (C16 drives NaN and infinite arguments through this mechanism;
+\* what the answers must be is the business of C02 / C12)
+CONSTANT PanicOnly
+
 P == INSTANCE Piecewise
 
 TraceInit == TallyInit /\ l = 1
@@ -15,9 +19,9 @@ TraceSelect ==
     /\ LET e == Rec[l] IN
        /\ Judge(~e.panic, "panic")
        /\ Judge(P!WellFormed(e.ends), "harness: ill-formed input")
-       /\ Judge(e.panic \/ (e.valok /\ \A k \in 1..Len(e.xs) :
+       /\ Judge(PanicOnly \/ e.panic \/ (e.valok /\ \A k \in 1..Len(e.xs) :
                     e.segs[k] = P!SelectScan(e.ends, e.xs[k]) /\ e.args[k] = e.xs[k]), "select")
-       /\ Judge(e.panic \/ \A k \in 1..Len(e.xs) : P!HalfOpen(e.ends, e.xs[k]), "half-open")
+       /\ Judge(PanicOnly \/ e.panic \/ \A k \in 1..Len(e.xs) : P!HalfOpen(e.ends, e.xs[k]), "half-open")
 
 TraceNext == TraceSelect
 =============================================================================
